@@ -341,13 +341,9 @@ func c18Run(c c18Case, res *WRes) {
 	site := strings.Join(fdesc, "+")
 	siteNoIdx := site
 	if panicked != "" {
-		if lookupSentinel {
-			// a store that answers "inactive" / "not found" without the documented companion value: outside the storage contract
-			res.DontCare++
-			res.note("panic-under-contract-violating-lookup-answer:" + c.Flow + "/" + site)
-		} else {
-			viol(fmt.Sprintf("C18/panic-on-storage-failure/%s/%s", c.Flow, siteNoIdx), fmt.Sprintf("flow %s: storage failure %s made the request panic: %s", c.Flow, site, panicked), "clean refusal", panicked)
-		}
+		// whatever the store answered (also "inactive" / "not found" without a companion request, which the storage
+		// interfaces do not forbid): the request has to be refused, not to panic
+		viol(fmt.Sprintf("C18/panic-on-storage-failure/%s/%s", c.Flow, siteNoIdx), fmt.Sprintf("flow %s: storage failure %s made the request panic: %s", c.Flow, site, panicked), "clean refusal", panicked)
 		if w.Tx != nil && w.Tx.depth > 0 {
 			if w.Tx.snap != nil {
 				w.Tx.snap.restore(w.Store)
